@@ -1348,6 +1348,50 @@ impl Sys for TomlMapSys {
             KEYS.iter().map(|k| { let g = m.iter().find(|(kk, _)| kk == k).map(|(_, v)| v.to_string()); format!("{}:{}/{}", k, opt(g.clone()), g.is_some()) }).collect::<Vec<_>>().join(",")
         );
         let into: Vec<String> = r.clone().into_iter().map(|(k, v)| format!("{}={}", k, iv(&v))).collect();
+        // the iterators are double-ended: back-to-front and mixed-end traversal must be the same sequence reversed
+        let rev = {
+            let mut c = r.clone();
+            let a: Vec<String> = r.iter().rev().map(|(k, v)| format!("{}={}", k, iv(v))).collect();
+            let b: Vec<String> = r.keys().rev().cloned().collect();
+            let cc: Vec<String> = r.values().rev().map(iv).collect();
+            let d: Vec<String> = c.iter_mut().rev().map(|(k, v)| format!("{}={}", k, iv(v))).collect();
+            let e: Vec<String> = r.clone().into_iter().rev().map(|(k, v)| format!("{}={}", k, iv(&v))).collect();
+            let mut it = r.iter();
+            let mut ends = Vec::new();
+            loop {
+                match it.next() {
+                    Some((k, _)) => ends.push(format!("f:{}", k)),
+                    None => break,
+                }
+                match it.next_back() {
+                    Some((k, _)) => ends.push(format!("b:{}", k)),
+                    None => break,
+                }
+            }
+            format!("iter.rev=[{}] keys.rev=[{}] values.rev=[{}] iter_mut.rev=[{}] into_iter.rev=[{}] ends=[{}] len={}", a.join(","), b.join(","), cc.join(","), d.join(","), e.join(","), ends.join(","), r.iter().len())
+        };
+        let rev_want = {
+            let a: Vec<String> = m.iter().rev().map(|(k, v)| format!("{}={}", k, v)).collect();
+            let b: Vec<String> = m.iter().rev().map(|(k, _)| k.clone()).collect();
+            let cc: Vec<String> = m.iter().rev().map(|(_, v)| v.to_string()).collect();
+            let mut ends = Vec::new();
+            let (mut lo, mut hi) = (0usize, m.len());
+            loop {
+                if lo < hi {
+                    ends.push(format!("f:{}", m[lo].0));
+                    lo += 1;
+                } else {
+                    break;
+                }
+                if lo < hi {
+                    hi -= 1;
+                    ends.push(format!("b:{}", m[hi].0));
+                } else {
+                    break;
+                }
+            }
+            format!("iter.rev=[{}] keys.rev=[{}] values.rev=[{}] iter_mut.rev=[{}] into_iter.rev=[{}] ends=[{}] len={}", a.join(","), b.join(","), cc.join(","), a.join(","), a.join(","), ends.join(","), m.len())
+        };
         let printed = {
             let text = toml::to_string(r).unwrap_or_else(|e| format!("SER-ERROR {}", e));
             match text.parse::<toml::Table>() {
@@ -1356,7 +1400,7 @@ impl Sys for TomlMapSys {
             }
         };
         let mi = m.iter().map(|(k, v)| format!("{}={}", k, v)).collect::<Vec<_>>().join(",");
-        vec![("observation".to_string(), real, want), ("into_iter".to_string(), into.join(","), mi.clone()), ("printed and re-parsed".to_string(), printed, mi)]
+        vec![("observation".to_string(), real, want), ("into_iter".to_string(), into.join(","), mi.clone()), ("double-ended iteration".to_string(), rev, rev_want), ("printed and re-parsed".to_string(), printed, mi)]
     }
     fn canon(&self, r: &Self::Real, m: &Self::Model) -> String {
         format!("{:?}|{:?}", r.iter().collect::<Vec<_>>(), m)
@@ -1579,7 +1623,14 @@ fn sort_wide_case(kind: usize, n: usize, r: usize, rev: bool, k: i64, op: usize)
 fn sort_family(rep: &mut Report, tier: Tier) {
     // (a) dotted children
     let t0 = std::time::Instant::now();
-    let perms = permutations(SORT_PATHS.len());
+    // every non-empty subset of the paths in every order (a parent with ONE entry that is a dotted table matters too)
+    let mut perms: Vec<Vec<usize>> = Vec::new();
+    for mask in 1u32..(1 << SORT_PATHS.len()) {
+        let members: Vec<usize> = (0..SORT_PATHS.len()).filter(|i| mask & (1 << i) != 0).collect();
+        for p in permutations(members.len()) {
+            perms.push(p.iter().map(|i| members[*i]).collect());
+        }
+    }
     let cases: Vec<(usize, bool, usize)> = (0..perms.len()).flat_map(|p| [false, true].into_iter().flat_map(move |inl| (0..4).map(move |w| (p, inl, w)))).collect();
     let acc = cases
         .par_iter()
@@ -1601,7 +1652,7 @@ fn sort_family(rep: &mut Report, tier: Tier) {
     let n = cases.len() as u64;
     rep.transitions = Some(rep.transitions.unwrap_or(0) + n);
     rep.traces_validated += n;
-    rep.absorb("U-sort(dotted)", &format!("every order of the 7 paths a, c, b.x, b.y, b.z, b.m.p, b.m.q ({} permutations) x root table / inline table x 4 comparators", perms.len()), n, true, t0, acc);
+    rep.absorb("U-sort(dotted)", &format!("every non-empty subset of the 7 paths a, c, b.x, b.y, b.z, b.m.p, b.m.q in every order ({} sequences) x root table / inline table x 4 comparators", perms.len()), n, true, t0, acc);
 
     // (b) wide containers
     let t0 = std::time::Instant::now();
